@@ -371,6 +371,7 @@ type solveState struct {
 	seenVar   map[int]bool
 	seenCall  map[*ssa.Call]bool
 	okCall    map[*ssa.Call]bool
+	sumCall   map[*ssa.Call]bool
 	budget    *int
 	assumeNil []ssa.Value
 	pendingCalls []*ssa.Call
@@ -525,6 +526,17 @@ func (st *solveState) callFacts(call *ssa.Call) {
 		}
 		st.seenCall[call] = true
 		return
+	}
+	// a helper whose only postconditions are inferred ones is summarised exit by exit as well: the inferred
+	// candidates are a fixed vocabulary, the exit summary carries the helper's own guards (start >= 0)
+	if callee != nil && !st.sumCall[call] {
+		if base := e.contractBase(callee); base == nil || (!base.Axiom && len(base.Post)+len(base.PostOK)+len(base.Locality) == 0) {
+			if st.sumCall == nil {
+				st.sumCall = map[*ssa.Call]bool{}
+			}
+			st.sumCall[call] = true
+			st.exitSummary(call, callee)
+		}
 	}
 	env := &cenv{e: e, params: call.Call.Args}
 	n := 1
